@@ -1,0 +1,28 @@
+//go:build verif
+// +build verif
+
+package plumbing
+
+import (
+	"gopkg.in/src-d/go-git.v4/plumbing"
+)
+
+// VerifC20TreeDiffState returns the per-branch memory of a TreeDiff: the hash of the previous
+// commit and, when a previous tree is held, its hash.  Read-only.
+func VerifC20TreeDiffState(treediff *TreeDiff) (prevCommit plumbing.Hash, hasTree bool, prevTree plumbing.Hash) {
+	prevCommit = treediff.previousCommit
+	if treediff.previousTree != nil {
+		hasTree = true
+		prevTree = treediff.previousTree.Hash
+	}
+	return
+}
+
+// VerifC20BlobCacheState returns a shallow copy of the rotating cache held by a BlobCache.  Read-only.
+func VerifC20BlobCacheState(blobCache *BlobCache) map[plumbing.Hash]*CachedBlob {
+	res := make(map[plumbing.Hash]*CachedBlob, len(blobCache.cache))
+	for k, v := range blobCache.cache {
+		res[k] = v
+	}
+	return res
+}
